@@ -18,6 +18,9 @@ struct C0 { int64_t v; };
 
 struct Handle { Entity e; size_t world; };
 
+struct ProbeMaster { int64_t v; };
+struct ProbeDep { int64_t v; };
+
 static void run_script(const std::vector<std::string>& lines) {
     std::vector<std::unique_ptr<World>> worlds;      // null once destroyed
     std::vector<Handle> handles;
@@ -61,6 +64,20 @@ static void run_script(const std::vector<std::string>& lines) {
             size_t k, h; in >> k >> h;
             if (k < worlds.size() && worlds[k] && h < handles.size()) worlds[k]->entities().destroyNow(handles[h].e);
             printf("R\n");
+        } else if (op == "probe") {
+            // per-world configuration must take effect in every world: the same typed dependency is declared in each world that is probed
+            size_t k; in >> k;
+            if (k < worlds.size() && worlds[k]) {
+                auto& em = worlds[k]->entities();
+                em.addDependency<ProbeMaster, ProbeDep>();
+                Entity e = em.create<ProbeMaster>();
+                const bool d1 = em.hasComponent<ProbeDep>(e);
+                Entity f = em.create<C0>();
+                em.assign<ProbeMaster>(f);
+                const bool d2 = em.hasComponent<ProbeDep>(f);
+                printf("R probe create=%d assign=%d\n", d1 ? 1 : 0, d2 ? 1 : 0);
+                em.destroyNow(e); em.destroyNow(f);
+            } else printf("R\n");
         } else if (op == "update") {
             size_t k; in >> k; if (k < worlds.size() && worlds[k]) worlds[k]->update(); printf("R\n");
         } else { printf("R unknown-op\n"); }
